@@ -70,7 +70,13 @@ class Worker:
 
 
 class Scheduler:
-    def __init__(self, functions, step_timeout=10.0, names=()):
+    def __init__(self, functions, step_timeout=10.0, names=(),
+                 block_timeout=None):
+        # block_timeout: a released worker that does not reach its next
+        # yield point within this time is taken to wait for a lock that a
+        # parked worker holds; another worker is released then (the waiting
+        # one continues on its own as soon as the lock is free)
+        self.block_timeout = block_timeout
         # names: (file base name, function name) pairs - for functions
         # that cannot be named as objects (methods of local classes)
         self.names = set(names)
@@ -111,6 +117,10 @@ class Scheduler:
                 if not live:
                     break
                 w = workers[live[0]]
+            if self.block_timeout is not None:
+                self._lock_aware_step(workers, w, trace)
+                current = w.index
+                continue
             current = w.index
             trace.append((w.index, w.where))
             w.parked.clear()
@@ -120,3 +130,40 @@ class Scheduler:
         for w in workers:
             w.thread.join(self.step_timeout)
         return workers, trace
+
+    def _lock_aware_step(self, workers, w, trace):
+        """Release ``w`` for one step.  A released worker that does not come
+        back within block_timeout waits for a lock: the parked workers are
+        stepped (one at a time, each with the same rule) until it does."""
+        def release(x):
+            trace.append((x.index, x.where))
+            x.parked.clear()
+            x.go.release()
+            return x.parked.wait(self.block_timeout)
+
+        if w.parked.is_set() and not w.done:
+            if release(w):
+                return
+        # w is on its way (now or from an earlier release)
+        rounds = 0
+        while not w.parked.is_set():
+            parked = [x for x in workers if x is not w and not x.done and
+                      x.parked.is_set()]
+            if not parked:
+                # everybody else is on the way as well: wait for anyone
+                deadline = time.monotonic() + self.step_timeout
+                while time.monotonic() < deadline:
+                    if any(x.parked.is_set() for x in workers
+                           if not x.done) or all(x.done for x in workers):
+                        break
+                    time.sleep(0.005)
+                else:
+                    raise Blocked("no worker can run (worker %d at %s)" % (
+                        w.index, w.where))
+                if all(x.done for x in workers):
+                    return
+                continue
+            release(parked[rounds % len(parked)])
+            rounds += 1
+            if rounds > 20000:
+                raise Blocked("worker %d never came back" % w.index)
